@@ -3,3 +3,4 @@
 import Dblib.Props.C03.Abstract
 import Dblib.Props.C03.History
 import Dblib.Props.C03.Concrete
+import Dblib.Props.C03.Duplex
